@@ -87,8 +87,16 @@ def strategy(draw):
                         own['set'] = donor['set']
                     else:
                         own.pop('set', None)
-                fr['attrs']['channels']['v'][k] = {'$ref': [di, dj]}
-                spec['foreign'] = 'twin' if twin else 'no-twin'
+                if draw(st.booleans()):
+                    # the frame is created with its own channels; the list holding the foreign channel is assigned to
+                    # the frame's CHANNELS attribute afterwards
+                    late = list(fr['attrs']['channels']['v'])
+                    late[k] = {'$ref': [di, dj]}
+                    fr['attrs']['channels']['v_late'] = late
+                    spec['foreign'] = ('twin' if twin else 'no-twin') + '+assigned-later'
+                else:
+                    fr['attrs']['channels']['v'][k] = {'$ref': [di, dj]}
+                    spec['foreign'] = 'twin' if twin else 'no-twin'
                 # the refusal must not depend on how the application configured logging
                 spec['log'] = draw(st.sampled_from(['WARNING', 'ERROR', 'disabled', 'DEBUG']))
     return spec
